@@ -204,8 +204,11 @@ def d1_chain(ctx, idx, st):
                         r.violation('precedence of %s %s vs %s %s' % (a[0], opname(a[1]), b[0], opname(b[1])),
                                     "%s '%s' must bind looser than %s '%s' but the grammar parses it %s '%s' "
                                     "(level `%s`: %s): expressions mixing the two are grouped differently from the "
-                                    "documented precedence" % (a[0], opname(a[1]), b[0], opname(b[1]), rel, opname(b[1]),
-                                                               lv.label, lv.describe()), gloc(g, lv.term),
+                                    "documented precedence%s" % (a[0], opname(a[1]), b[0], opname(b[1]), rel, opname(b[1]),
+                                                                 lv.label, lv.describe(),
+                                                                 (' -- e.g. `-a %s b` is read as -(a %s b) instead of (-a) %s b' % (
+                                                                     a[1], a[1], a[1])) if (a[0], b[0]) == ('infix', 'prefix') else ''),
+                                    gloc(g, lv.term),
                                     expected='%s below %s' % (opname(a[1]), opname(b[1])), found=rel)
                         reported = True
             for k in sorted(set(exp_rank) - set(found_rank)):
@@ -511,11 +514,13 @@ def d2_cast(ctx, idx, st):
             where = lib.loc(en, p.leaf.stmt)
             construct = 'eval_node: returned value'
             if is_action_call(v):
-                r.violation(construct, 'eval_node returns the raw output of the action (`%s`) instead of the value that went through '
-                            'cast_np_numeric_as_builtin: numpy scalars (np.float64 from sin, cos, ...) escape from interior nodes, so the '
-                            'enclosing operators see numpy numbers -- `sin(x)^0.5` at a negative base then takes numpy\'s real power (an '
-                            'error through the seterr handler) instead of the complex-capable robust_pow on builtins, and number + array '
-                            'broadcasts' % short(p.leaf.stmt.value), where, expected='cast_np_numeric_as_builtin(<action result>, ...)',
+                exit_guard = ' and '.join(unparse(g_) for g_ in p.guards[-2:]) or 'always'
+                r.violation(construct, 'on the exit of eval_node taken when `%s`, the raw output of the action (`%s`) is returned instead '
+                            'of the value that went through cast_np_numeric_as_builtin: numpy scalars (np.float64 from sin, cos, sampled '
+                            'variables ...) escape from these nodes, so the enclosing operators see numpy numbers -- `sin(x)^0.5` at a '
+                            'negative base then takes numpy\'s real power (an error through the seterr handler) instead of the '
+                            'complex-capable robust_pow on builtins, and number + array broadcasts'
+                            % (exit_guard, short(p.leaf.stmt.value)), where, expected='cast_np_numeric_as_builtin(<action result>, ...)',
                             found=short(p.leaf.stmt.value))
             elif isinstance(v, ast.Call) and nf.callee_name(v) == 'cast_np_numeric_as_builtin' and v.args and \
                     any(is_action_call(n) for n in ast.walk(v.args[0])):
@@ -1794,9 +1799,22 @@ _TABLE = "METRIC_SUFFIXES = {\n    'k': 1e3, 'M': 1e6, 'G': 1e9, 'T': 1e12,\n   
 _LOOP = "METRIC_SUFFIXES = {}\nfor step, (multiple, fraction) in enumerate(zip('kMGT', '%s'), start=1):\n    METRIC_SUFFIXES[multiple] = float('1e{}'.format(3 * step))\n    METRIC_SUFFIXES[fraction] = float('1e-{}'.format(3 * step))\n"
 _PRODUCT = "product = parallel + ZeroOrMore((Literal('*') | Literal('/'))(\"op\") + parallel)"
 
+_LEVELS_OLD = _NEG_OLD[:_NEG_OLD.index("        pipes = ")] + _SWAP_OLD + "        sumdiff.addParseAction(self.group_if_multiple('sum'))\n"
+_LEVELS_NEW = ("        sign = Optional(minus)(\"op\")\n        pipes = Literal('|') + Literal('|')\n        levels = [\n"
+               "            ('power', Suppress(\"^\") + sign, None),\n%s"
+               "            ('product', (Literal('*') | Literal('/'))(\"op\"), None),\n            ('sum', plus_minus(\"op\"), Optional(plus)),\n        ]\n"
+               "        operand = atom\n        for level_name, infix, prefix in levels:\n            level = operand\n"
+               "            if infix is not None:\n                level = level + ZeroOrMore(infix + operand)\n"
+               "            if prefix is not None:\n                level = prefix + level\n"
+               "            level.addParseAction(self.group_if_multiple(level_name))\n            operand = level\n")
+_ROW_NEG = "            ('negation', None, sign),\n"
+_ROW_PAR = "            ('parallel', Suppress(pipes), None),\n"
+
 MUTANTS = [
     # D1
-    Mutant('levels-product-parallel-swapped', EXPR, _SWAP_OLD, _SWAP_NEW, 'D1'),
+    Mutant('levels-from-a-table-with-two-rows-swapped', EXPR, [(_LEVELS_OLD, _LEVELS_NEW % (_ROW_PAR + _ROW_NEG)),
+                                                                ("expression << sumdiff", "expression << operand")], None, 'D1',
+           note='seeded C03k: the precedence levels are built by a loop over an ordered table; parallel sits before negation'),
     Mutant('negation-above-power', EXPR, _NEG_OLD, _NEG_NEW, 'D1'),
     Mutant('product-right-operand-tighter', EXPR, _PRODUCT,
            "product = parallel + ZeroOrMore((Literal('*') | Literal('/'))(\"op\") + negation)", 'D1'),
@@ -1858,6 +1876,8 @@ MUTANTS = [
 ]
 
 BENIGN = [
+    Benign('levels-from-an-ordered-table', EXPR, [(_LEVELS_OLD, _LEVELS_NEW % (_ROW_NEG + _ROW_PAR)),
+                                                  ("expression << sumdiff", "expression << operand")], None),
     Benign('sum-as-for-loop-over-pairs', EXPR, "        while data:\n            op = data.pop(0)\n            num = data.pop(0)\n            if op == '+':",
            "        for op, num in zip(data[0::2], data[1::2]):\n            if op == '+':"),
     Benign('power-as-reversed-loop', EXPR, "        data = parse_result[:]\n        result = data.pop()\n        while data:\n            # Result contains the current exponent\n            working = data.pop()\n",
